@@ -12,103 +12,6 @@ Arguments for_loop : simpl never.
 Arguments call_n : simpl never.
 Arguments lookup_ob : simpl never.
 
-(* a loop whose iterations over `pre` only move on (the environment changes in one slot `E b`), and
-   whose iteration at x breaks with the state R *)
-Lemma for_loop_scan : forall (body : val -> env -> journal -> res) (E : option val -> env) pre x post j b0 R,
-  (forall i b, In i pre -> exists b', body i (E b) j = RContinue (E b') j \/ body i (E b) j = RNormal (E b') j) ->
-  (forall b, body x (E b) j = RBreak R j) ->
-  for_loop body (pre ++ x :: post) (E b0) j = RNormal R j.
-Proof.
-  intros body E pre x post j b0 R Hpre Hx. revert b0.
-  induction pre as [|i pre IH]; intro b0.
-  - cbn [app]. rewrite for_loop_cons, Hx. reflexivity.
-  - cbn [app]. rewrite for_loop_cons.
-    destruct (Hpre i b0 (or_introl eq_refl)) as [b' [H|H]]; rewrite H; apply IH; intros; apply Hpre; now right.
-Qed.
-
-(* what the loop over __orig_bases__ in _get_types moves past without consequences: a class, a parametrised base
-   that does not use the mixin, or a parametrised base whose origin has __orig_bases__ none of which is Generic[..] *)
-Definition passes_over (w : world) (v : val) : bool :=
-  match v with
-  | VCls _ => true
-  | VAlias (VCls p) _ =>
-      match lookup_ob w p with
-      | Some bs => forallb is_base bs && negb (existsb is_generic_alias bs)
-      | None => false
-      end
-  | _ => false
-  end.
-
-Definition in_front (w : world) (v : val) : bool := passes_over w v || foreign w v.
-
-Lemma front_ok_in_front : forall w l, forallb (front_ok w) l = true -> forallb (in_front w) l = true.
-Proof.
-  induction l as [|x l IH]; [reflexivity|]. cbn [forallb]. intro H. apply andb_true_iff in H as [H1 H2].
-  rewrite (IH H2), andb_true_r. unfold in_front, front_ok in *. destruct x; try discriminate H1; try reflexivity.
-  now rewrite H1, orb_true_r.
-Qed.
-
-Lemma front_not_generic : forall w l, forallb (in_front w) l = true -> existsb is_generic_alias l = false.
-Proof.
-  induction l as [|x l IH]; [reflexivity|]. cbn [forallb existsb]. intro H.
-  apply andb_true_iff in H as [H1 H2]. rewrite (IH H2), orb_false_r.
-  destruct x; try discriminate H1; try reflexivity. destruct x; try discriminate H1; reflexivity.
-Qed.
-
-Lemma front_is_base : forall w l, forallb (in_front w) l = true -> forallb is_base l = true.
-Proof.
-  induction l as [|x l IH]; [reflexivity|]. cbn [forallb]. intro H.
-  apply andb_true_iff in H as [H1 H2]. rewrite (IH H2), andb_true_r. destruct x; try discriminate H1; reflexivity.
-Qed.
-
-Lemma first_generic_none : forall l, existsb is_generic_alias l = false -> first_generic l = VNone.
-Proof. intros l H. unfold first_generic. now rewrite (filter_none _ H). Qed.
-
-Lemma gt_binding : forall w k c oc pre d xs post ts,
-  lookup_ob w c = Some (pre ++ VAlias (VCls d) xs :: post) ->
-  forallb (in_front w) pre = true -> uses_mixin w d = true ->
-  forallb is_base post = true -> existsb is_generic_alias post = false ->
-  direct_generic w d ts ->
-  call_n P w no_ext (S (S k)) "_get_types" [VInst c oc] = Ok (VDict (zipdict ts xs)).
-Proof.
-  intros w k c oc pre d xs post ts Hl Hpre Hmx Hpost Hng (bases & Hld & Hdecl & Hdist).
-  destruct (declares_first_generic _ _ Hdecl) as [Hbb Hfg].
-  assert (Hall : forallb is_base (pre ++ VAlias (VCls d) xs :: post) = true).
-  { rewrite forallb_app. cbn [forallb is_base]. now rewrite (front_is_base _ _ Hpre), Hpost. }
-  assert (Hnone : first_generic (pre ++ VAlias (VCls d) xs :: post) = VNone).
-  { unfold first_generic. rewrite filter_app. cbn [filter is_generic_alias].
-    now rewrite (filter_none _ (front_not_generic _ _ Hpre)), (filter_none _ Hng). }
-  rewrite call_S; cbn [assoc String.eqb Ascii.eqb Bool.eqb progs].
-  unfold run_fundef; cbn; unfold has_attr; rewrite get_inst_ob, Hl; cbn.
-  rewrite (ggb_ok w k _ _) by (try eassumption; now rewrite get_inst_ob, Hl).
-  rewrite Hnone. cbn. rewrite Hl. cbn.
-  match goal with |- context [for_loop ?b ?l ?e ?j] =>
-    assert (HL : for_loop b l e j = RNormal
-      [("self", Some (VInst c oc)); ("non_generic_error", Some (VExn AssertionErrorC));
-       ("generic_base", Some (VAlias VGeneric ts)); ("base", Some (VAlias (VCls d) xs));
-       ("types", Some (VTuple xs)); ("type_vars", None)] j) end.
-  { apply (for_loop_scan _ (fun b => [("self", Some (VInst c oc)); ("non_generic_error", Some (VExn AssertionErrorC));
-       ("generic_base", Some VNone); ("base", b); ("types", None); ("type_vars", None)])).
-    - intros i b Hi. exists (Some i).
-      assert (Hp : in_front w i = true) by (rewrite forallb_forall in Hpre; auto).
-      unfold in_front in Hp.
-      destruct i; try discriminate Hp; [left; reflexivity|].
-      destruct i; try discriminate Hp. cbn [passes_over foreign] in Hp.
-      destruct (uses_mixin w c0) eqn:Eu.
-      + cbn [negb] in Hp. rewrite orb_false_r in Hp.
-        destruct (lookup_ob w c0) as [bs|] eqn:Eb; [|discriminate Hp].
-        apply andb_true_iff in Hp as [Hb1 Hb2]. apply negb_true_iff in Hb2.
-        right. cbn. unfold has_attr. cbn. rewrite Eu. cbn.
-        rewrite (ggb_ok w k _ bs) by (try assumption; now rewrite get_cls_ob, Eb).
-        rewrite (first_generic_none _ Hb2). reflexivity.
-      + left. cbn. unfold has_attr. cbn. rewrite Eu. reflexivity.
-    - intro b. cbn. unfold has_attr. cbn. rewrite Hmx. cbn.
-      rewrite (ggb_ok w k _ bases) by (try assumption; now rewrite get_cls_ob, Hld).
-      rewrite Hfg. reflexivity. }
-  rewrite HL. cbn.
-  erewrite zip_items; [reflexivity|exact []|]. intros x y. reflexivity.
-Qed.
-
 (* ----- the dict built from distinct keys is the zip itself, in order ------------------------ *)
 
 Lemma dict_set_fresh : forall k v d,
@@ -132,6 +35,161 @@ Qed.
 
 Lemma zipdict_distinct : forall ts xs, distinct_keys [] ts = true -> zipdict ts xs = combine ts xs.
 Proof. intros. unfold zipdict. now rewrite fold_zip. Qed.
+
+(* ----- loops that move on over `pre` (the environment changes only in slots whose content does not matter) and
+   leave at x ------------------------------------------------------------------------------------------ *)
+Lemma for_loop_until : forall (J : Type) (body : val -> env -> journal -> res) (E : J -> env) pre x post j r,
+  (forall i b, In i pre -> exists b', body i (E b) j = RContinue (E b') j \/ body i (E b) j = RNormal (E b') j) ->
+  (forall b, body x (E b) j = r) ->
+  (match r with RNormal _ _ | RContinue _ _ => False | _ => True end) ->
+  forall b0, for_loop body (pre ++ x :: post) (E b0) j = match r with RBreak en j' => RNormal en j' | o => o end.
+Proof.
+  intros J body E pre x post j r Hpre Hx Hr.
+  induction pre as [|i pre IH]; intro b0.
+  - cbn [app]. rewrite for_loop_cons, Hx. destruct r; try contradiction; reflexivity.
+  - cbn [app]. rewrite for_loop_cons.
+    destruct (Hpre i b0 (or_introl eq_refl)) as [b' [H|H]]; rewrite H; apply IH; intros; apply Hpre; now right.
+Qed.
+
+Lemma comp_list_cons : forall fc fe i r,
+  comp_list fc fe (i :: r) =
+  bind (fc i) (fun c => if truthy c then bind (fe i) (fun x => bind (comp_list fc fe r) (fun l => Ok (x :: l)))
+                        else comp_list fc fe r).
+Proof. reflexivity. Qed.
+
+Lemma comp_list_map : forall fc fe (g : val -> val) items,
+  (forall i, In i items -> fc i = Ok (VBool true) /\ fe i = Ok (g i)) ->
+  comp_list fc fe items = Ok (map g items).
+Proof.
+  intros fc fe g. induction items as [|i r IH]; intro H; [reflexivity|].
+  destruct (H i (or_introl eq_refl)) as [Hc He].
+  rewrite comp_list_cons, Hc. cbn [bind truthy map]. rewrite He. cbn [bind].
+  rewrite IH by (intros; apply H; now right). reflexivity.
+Qed.
+
+Lemma front_ok_not_generic : forall w l, forallb (front_ok w) l = true -> existsb is_generic_alias l = false.
+Proof.
+  induction l as [|x l IH]; [reflexivity|]. cbn [forallb existsb]. intro H.
+  apply andb_true_iff in H as [H1 H2]. rewrite (IH H2), orb_false_r.
+  destruct x; try discriminate H1; try reflexivity. destruct x; try discriminate H1; reflexivity.
+Qed.
+
+Lemma front_ok_is_base : forall w l, forallb (front_ok w) l = true -> forallb is_base l = true.
+Proof.
+  induction l as [|x l IH]; [reflexivity|]. cbn [forallb]. intro H.
+  apply andb_true_iff in H as [H1 H2]. rewrite (IH H2), andb_true_r. destruct x; try discriminate H1; reflexivity.
+Qed.
+
+Lemma first_generic_none : forall l, existsb is_generic_alias l = false -> first_generic l = VNone.
+Proof. intros l H. unfold first_generic. now rewrite (filter_none _ H). Qed.
+
+Lemma first_generic_of_args : forall bases,
+  first_generic bases = match first_generic_args bases with Some ts => VAlias VGeneric ts | None => VNone end.
+Proof.
+  unfold first_generic. induction bases as [|b bases IH]; [reflexivity|].
+  destruct b; try exact IH. destruct b; try exact IH. reflexivity.
+Qed.
+
+Lemma binding_base_split : forall w bases front d xs fr post,
+  binding_base w front bases = Some (d, xs, fr, post) ->
+  front ++ bases = fr ++ VAlias (VCls d) xs :: post /\ uses_mixin w d = true.
+Proof.
+  induction bases as [|b bases IH]; intros front d xs fr post H; [discriminate|].
+  assert (Hstep : binding_base w (front ++ [b]) bases = Some (d, xs, fr, post) ->
+                  front ++ b :: bases = fr ++ VAlias (VCls d) xs :: post /\ uses_mixin w d = true).
+  { intro H'. destruct (IH _ _ _ _ _ H') as [E U]. split; [|exact U]. rewrite <- E, <- app_assoc. reflexivity. }
+  destruct b; try (apply Hstep; exact H).
+  destruct b; try (apply Hstep; exact H).
+  cbn [binding_base] in H. destruct (uses_mixin w c) eqn:Eu; [|apply Hstep; exact H].
+  inversion H; subst. split; [reflexivity|exact Eu].
+Qed.
+
+#[local] Arguments class_params : simpl never.
+#[local] Arguments uses_mixin : simpl never.
+
+(* ----- _resolve_generic_base: the recursion through forwarding / partially binding classes.  The call depth
+   needed grows with the length of the chain: `f + S k` ------------------------------------------------------ *)
+Lemma resolve_run : forall w f d xs ts xs',
+  resolve w f d xs = Some (ts, xs') ->
+  forall k, call_n P w no_ext (f + S k) "_resolve_generic_base" [VCls d; VTuple xs] =
+            Ok (VTuple [VAlias VGeneric ts; VTuple xs']).
+Proof.
+  intros w. induction f as [|f IH]; intros d xs ts xs' H k; [discriminate|].
+  cbn [resolve] in H. destruct (lookup_ob w d) as [bases|] eqn:Hl; [|discriminate].
+  destruct (forallb is_base bases) eqn:Hb; [|discriminate]. cbn [negb] in H.
+  cbn [plus]. rewrite Nat.add_succ_r.
+  rewrite call_S; cbn [assoc String.eqb Ascii.eqb Bool.eqb progs].
+  unfold run_fundef; cbn.
+  rewrite (ggb_ok w (f + k) _ bases) by (try assumption; now rewrite get_cls_ob, Hl).
+  rewrite first_generic_of_args.
+  destruct (first_generic_args bases) as [ts0|] eqn:Hg.
+  { inversion H; subst. reflexivity. }
+  destruct (binding_base w [] bases) as [[[[d' ys] front] post]|] eqn:Eb; [|discriminate].
+  destruct (class_params w d) as [ps|] eqn:Ep; [|discriminate].
+  destruct (forallb is_plain front && forallb is_plain post && Nat.eqb (List.length ps) (List.length xs) && distinct_keys [] ps) eqn:Ec;
+    [|discriminate].
+  apply andb_true_iff in Ec as [Ec Hdist]. apply andb_true_iff in Ec as [Ec _]. apply andb_true_iff in Ec as [Hfront _].
+  destruct (binding_base_split _ _ _ _ _ _ _ Eb) as [Esplit Hmx]. cbn [app] in Esplit. subst bases.
+  cbn. rewrite Ep. cbn.
+  erewrite zip_items; [|exact []|intros a b; reflexivity]. rewrite (zipdict_distinct _ _ Hdist). cbn.
+  rewrite Hl. cbn.
+  match goal with |- context [for_loop ?b ?l ?e ?j] =>
+    assert (HL : for_loop b l e j = RReturn (VTuple [VAlias VGeneric ts; VTuple xs']) j) end.
+  { apply (for_loop_until (option val * option val) _
+      (fun b => [("origin", Some (VCls d)); ("args", Some (VTuple xs)); ("generic_base", Some VNone);
+                 ("binding", Some (VDict (combine ps xs))); ("base", fst b); ("base_origin", snd b)])
+      front _ post _ (RReturn (VTuple [VAlias VGeneric ts; VTuple xs']) [])) with (b0 := (None, None)).
+    - intros i b Hi. exists (Some i, Some VNone). right.
+      assert (Hp : is_plain i = true) by (rewrite forallb_forall in Hfront; auto).
+      destruct i; try discriminate Hp. reflexivity.
+    - intro b. cbn. rewrite Hmx. cbn.
+      erewrite (comp_list_map _ _ (subst ps xs)).
+      2:{ intros i _. split; [reflexivity|]. cbn. unfold subst. destruct (dict_get i (combine ps xs)); reflexivity. }
+      cbn. specialize (IH _ _ _ _ H k). rewrite Nat.add_succ_r in IH. rewrite IH. reflexivity.
+    - exact I. }
+  rewrite HL. reflexivity.
+Qed.
+
+(* ----- _get_types on a subclass that binds the parameters of its (first mixin-using) generic base ------------ *)
+Lemma gt_chain : forall w f k c oc pre d zs post ts xs,
+  lookup_ob w c = Some (pre ++ VAlias (VCls d) zs :: post) ->
+  forallb (front_ok w) pre = true -> uses_mixin w d = true ->
+  forallb is_base post = true -> existsb is_generic_alias post = false ->
+  resolve w f d zs = Some (ts, xs) ->
+  call_n P w no_ext (S (f + S k)) "_get_types" [VInst c oc] = Ok (VDict (zipdict ts xs)).
+Proof.
+  intros w f k c oc pre d zs post ts xs Hl Hpre Hmx Hpost Hng Hres.
+  assert (Hall : forallb is_base (pre ++ VAlias (VCls d) zs :: post) = true).
+  { rewrite forallb_app. cbn [forallb is_base]. now rewrite (front_ok_is_base _ _ Hpre), Hpost. }
+  assert (Hnone : first_generic (pre ++ VAlias (VCls d) zs :: post) = VNone).
+  { unfold first_generic. rewrite filter_app. cbn [filter is_generic_alias].
+    now rewrite (filter_none _ (front_ok_not_generic _ _ Hpre)), (filter_none _ Hng). }
+  rewrite Nat.add_succ_r.
+  rewrite call_S; cbn [assoc String.eqb Ascii.eqb Bool.eqb progs].
+  unfold run_fundef; cbn; unfold has_attr; rewrite get_inst_ob, Hl; cbn.
+  rewrite (ggb_ok w (f + k) _ _) by (try eassumption; now rewrite get_inst_ob, Hl).
+  rewrite Hnone. cbn. rewrite Hl. cbn.
+  match goal with |- context [for_loop ?b ?l ?e ?j] =>
+    assert (HL : for_loop b l e j = RNormal
+      [("self", Some (VInst c oc)); ("non_generic_error", Some (VExn AssertionErrorC));
+       ("generic_base", Some (VAlias VGeneric ts)); ("base", Some (VAlias (VCls d) zs));
+       ("types", Some (VTuple xs)); ("type_vars", None)] j) end.
+  { apply (for_loop_until (option val) _ (fun b => [("self", Some (VInst c oc)); ("non_generic_error", Some (VExn AssertionErrorC));
+       ("generic_base", Some VNone); ("base", b); ("types", None); ("type_vars", None)])
+       pre _ post _ (RBreak [("self", Some (VInst c oc)); ("non_generic_error", Some (VExn AssertionErrorC));
+       ("generic_base", Some (VAlias VGeneric ts)); ("base", Some (VAlias (VCls d) zs));
+       ("types", Some (VTuple xs)); ("type_vars", None)] [])) with (b0 := None).
+    - intros i b Hi. exists (Some i). left.
+      assert (Hp : front_ok w i = true) by (rewrite forallb_forall in Hpre; auto).
+      destruct i; try discriminate Hp; [reflexivity|].
+      destruct i; try discriminate Hp. cbn [front_ok foreign] in Hp. apply negb_true_iff in Hp.
+      cbn. unfold has_attr. cbn. rewrite Hp. reflexivity.
+    - intro b. cbn. unfold has_attr. cbn. rewrite Hmx. cbn.
+      pose proof (resolve_run w f d zs ts xs Hres k) as Hr. rewrite Nat.add_succ_r in Hr. rewrite Hr. reflexivity.
+    - exact I. }
+  rewrite HL. cbn.
+  erewrite zip_items; [reflexivity|exact []|]. intros x y. reflexivity.
+Qed.
 
 (* ----- type_vars / type_var on top of _get_types ---------------------------------------------- *)
 
@@ -165,9 +223,9 @@ Qed.
 (* ----- the three supported shapes ---------------------------------------------------------------- *)
 
 Definition type_vars_at (w : world) (k c : nat) (oc : option val) : outcome val :=
-  call_n P w no_ext (S (S (S k))) "type_vars" [VInst c oc].
+  call_n P w no_ext (S (S (S (S k)))) "type_vars" [VInst c oc].
 Definition type_var_at (w : world) (k c : nat) (oc : option val) : outcome val :=
-  call_n P w no_ext (S (S (S k))) "type_var" [VInst c oc].
+  call_n P w no_ext (S (S (S (S k)))) "type_var" [VInst c oc].
 
 Lemma get_types_direct : forall w k c o xs ts,
   direct_generic w c ts ->
@@ -184,13 +242,42 @@ Proof.
   now rewrite (gt_direct w k c _ bases ts Hl Hb Hg).
 Qed.
 
+(* the chain of length S f0 needs f0 more levels of call depth *)
+Lemma get_types_chain : forall w f0 k c oc pre d zs post ts xs,
+  lookup_ob w c = Some (pre ++ VAlias (VCls d) zs :: post) ->
+  forallb (front_ok w) pre = true -> uses_mixin w d = true ->
+  forallb is_base post = true -> existsb is_generic_alias post = false ->
+  resolve w (S f0) d zs = Some (ts, xs) -> distinct_keys [] ts = true ->
+  call_n P w no_ext (S (S (S (f0 + k)))) "_get_types" [VInst c oc] = Ok (VDict (combine ts xs)).
+Proof.
+  intros w f0 k c oc pre d zs post ts xs Hl Hpre Hmx Hpost Hng Hr Hd.
+  pose proof (gt_chain w (S f0) k c oc pre d zs post ts xs Hl Hpre Hmx Hpost Hng Hr) as H.
+  cbn [plus] in H. rewrite Nat.add_succ_r in H. rewrite H. now rewrite zipdict_distinct.
+Qed.
+
+Lemma first_generic_args_app : forall pre ts post,
+  existsb is_generic_alias pre = false -> first_generic_args (pre ++ VAlias VGeneric ts :: post) = Some ts.
+Proof.
+  induction pre as [|b pre IH]; intros ts post H; [reflexivity|].
+  cbn [existsb] in H. apply orb_false_iff in H as [H1 H2]. cbn [app].
+  destruct b; try (cbn [first_generic_args]; now apply IH).
+  destruct b; try (cbn [first_generic_args]; now apply IH). discriminate H1.
+Qed.
+
+Lemma resolve_direct : forall w d ts xs, direct_generic w d ts -> resolve w 1 d xs = Some (ts, xs).
+Proof.
+  intros w d ts xs (bases & Hld & Hdecl & Hdist).
+  destruct (declares_first_generic _ _ Hdecl) as [Hb _]. destruct Hdecl as (p & q & -> & _ & Hp).
+  cbn [resolve]. rewrite Hld, Hb. cbn [negb]. now rewrite (first_generic_args_app _ _ _ Hp).
+Qed.
+
 Lemma get_types_binding : forall w k c oc ts xs,
   binding_subclass w c ts xs ->
-  call_n P w no_ext (S (S k)) "_get_types" [VInst c oc] = Ok (VDict (combine ts xs)).
+  call_n P w no_ext (S (S (S k))) "_get_types" [VInst c oc] = Ok (VDict (combine ts xs)).
 Proof.
   intros w k c oc ts xs (pre & d & post & Hl & Hpre & Hmx & Hpost & Hng & Hd).
-  rewrite (gt_binding w k c oc pre d xs post ts Hl (front_ok_in_front _ _ Hpre) Hmx Hpost Hng Hd).
-  destruct Hd as (b & _ & _ & Hk). now rewrite zipdict_distinct.
+  pose proof Hd as (b & _ & _ & Hk).
+  exact (get_types_chain w 0 k c oc pre d xs post ts xs Hl Hpre Hmx Hpost Hng (resolve_direct w d ts xs Hd) Hk).
 Qed.
 
 Lemma tv_direct : forall w k c o xs ts,
@@ -217,18 +304,32 @@ Lemma tvar_unparam : forall w k c ts,
   direct_generic w c ts -> type_var_at w k c None = Raise AssertionErrorC.
 Proof.
   intros. unfold type_var_at.
-  rewrite (type_var_eq w k _ (Raise AssertionErrorC)); [reflexivity|now apply get_types_unparam with ts|exact I].
+  rewrite (type_var_eq w (S k) _ (Raise AssertionErrorC)); [reflexivity|now apply get_types_unparam with ts|exact I].
 Qed.
 
 Lemma tvar_binding : forall w k c oc ts xs,
   binding_subclass w c ts xs -> type_var_at w k c oc = type_var_of (Ok (VDict (combine ts xs))).
 Proof. intros. unfold type_var_at. apply type_var_eq; [now apply get_types_binding|exact I]. Qed.
 
+Lemma tv_chain : forall tv w f0 k c oc ts xs,
+  chain_binding tv w (S f0) c ts xs -> type_vars_at w (f0 + k) c oc = Ok (VDict (combine ts xs)).
+Proof.
+  intros tv w f0 k c oc ts xs (pre & d & zs & post & Hl & Hpre & Hmx & Hpost & Hng & Hr & Hd & _).
+  unfold type_vars_at. rewrite type_vars_eq. now apply get_types_chain with pre d zs post.
+Qed.
+
+Lemma tvar_chain : forall tv w f0 k c oc ts xs,
+  chain_binding tv w (S f0) c ts xs -> type_var_at w (f0 + k) c oc = type_var_of (Ok (VDict (combine ts xs))).
+Proof.
+  intros tv w f0 k c oc ts xs (pre & d & zs & post & Hl & Hpre & Hmx & Hpost & Hng & Hr & Hd & _).
+  unfold type_var_at. apply type_var_eq; [now apply get_types_chain with pre d zs post|exact I].
+Qed.
+
 Lemma tvar_non_generic : forall w k c oc,
   lookup_ob w c = None -> type_var_at w k c oc = Raise AssertionErrorC.
 Proof.
   intros. unfold type_var_at.
-  rewrite (type_var_eq w k _ (Raise AssertionErrorC)); [reflexivity|now apply gt_non_generic|exact I].
+  rewrite (type_var_eq w (S k) _ (Raise AssertionErrorC)); [reflexivity|now apply gt_non_generic|exact I].
 Qed.
 
 (* type_var_of on a zip: the single argument when there is one parameter, AssertionError otherwise *)
@@ -432,56 +533,25 @@ Qed.
 
 
 
-(* ----- the executable form of the full statement's shape (chains of forwarding / partially binding classes) ---- *)
-Lemma binding_base_split : forall w bases front d xs fr post,
-  binding_base w front bases = Some (d, xs, fr, post) ->
-  front ++ bases = fr ++ VAlias (VCls d) xs :: post /\ uses_mixin w d = true.
+Lemma chain_binding_b_sound : forall tv w f c ts xs,
+  chain_binding_b tv w f c ts xs = true -> chain_binding tv w f c ts xs.
 Proof.
-  induction bases as [|b bases IH]; intros front d xs fr post H; [discriminate|].
-  assert (Hstep : binding_base w (front ++ [b]) bases = Some (d, xs, fr, post) ->
-                  front ++ b :: bases = fr ++ VAlias (VCls d) xs :: post /\ uses_mixin w d = true).
-  { intro H'. destruct (IH _ _ _ _ _ H') as [E U]. split; [|exact U]. rewrite <- E, <- app_assoc. reflexivity. }
-  destruct b; try (apply Hstep; exact H).
-  destruct b; try (apply Hstep; exact H).
-  cbn [binding_base] in H. destruct (uses_mixin w c) eqn:Eu; [|apply Hstep; exact H].
-  inversion H; subst. split; [reflexivity|exact Eu].
-Qed.
-
-Lemma chain_binding_b_sound : forall tv w c ts xs,
-  chain_binding_b tv w c ts xs = true -> chain_binding tv w c (combine ts xs).
-Proof.
-  unfold chain_binding_b, chain_binding. intros tv w c ts xs H.
+  unfold chain_binding_b, chain_binding. intros tv w f c ts xs H.
   destruct (lookup_ob w c) as [bases|]; [|discriminate].
   destruct (binding_base w [] bases) as [[[[d zs] front] post]|] eqn:Eb; [|discriminate].
   destruct (binding_base_split _ _ _ _ _ _ _ Eb) as [E U]. cbn [app] in E. subst bases.
   apply andb_true_iff in H as [H H4]. apply andb_true_iff in H as [H H3]. apply andb_true_iff in H as [H1 H2].
-  destruct (resolve tv w 8 d zs) as [kvs|] eqn:Er; [|discriminate].
-  apply andb_true_iff in H4 as [H4 H6]. apply andb_true_iff in H4 as [H4 H5].
-  apply toks_eqb_eq in H4. apply toks_eqb_eq in H5. apply negb_true_iff in H3.
-  exists 8, front, d, zs, post. repeat split; try assumption.
-  - rewrite Er. f_equal. subst ts xs. clear. induction kvs as [|[a b] kvs IH]; [reflexivity|]. cbn. now rewrite <- IH.
-  - subst ts xs. replace (combine (map fst kvs) (map snd kvs)) with kvs; [exact H6|].
-    clear. induction kvs as [|[a b] kvs IH]; [reflexivity|]. cbn. now rewrite <- IH.
+  destruct (resolve w f d zs) as [[ts' xs']|] eqn:Er; [|discriminate].
+  apply andb_true_iff in H4 as [H4 H7]. apply andb_true_iff in H4 as [H4 H6]. apply andb_true_iff in H4 as [H4 H5].
+  apply toks_eqb_eq in H4. apply toks_eqb_eq in H5. apply negb_true_iff in H3. subst ts' xs'.
+  exists front, d, zs, post. repeat split; assumption.
 Qed.
 
-(* the guarded form is an instance of the full statement: a binding base that declares Generic[..] itself is a chain
-   of length 1 *)
-Lemma first_generic_args_app : forall pre ts post,
-  existsb is_generic_alias pre = false -> first_generic_args (pre ++ VAlias VGeneric ts :: post) = Some ts.
-Proof.
-  induction pre as [|b pre IH]; intros ts post H; [reflexivity|].
-  cbn [existsb] in H. apply orb_false_iff in H as [H1 H2]. cbn [app].
-  destruct b; try (cbn [first_generic_args]; now apply IH).
-  destruct b; try (cbn [first_generic_args]; now apply IH). discriminate H1.
-Qed.
-
+(* a binding base that declares Generic[..] itself is a chain of length 1 *)
 Lemma binding_is_chain : forall tv w c ts xs,
-  binding_subclass w c ts xs -> List.length ts = List.length xs -> forallb (fun x => negb (tv x)) xs = true ->
-  chain_binding tv w c (combine ts xs).
+  binding_subclass w c ts xs -> forallb (fun x => negb (tv x)) xs = true -> chain_binding tv w 1 c ts xs.
 Proof.
-  intros tv w c ts xs (pre & d & post & Hl & Hpre & Hmx & Hpost & Hng & bases & Hld & Hdecl & Hdist) Hlen Hcl.
-  exists 1, pre, d, xs, post. repeat split; try assumption.
-  - destruct (declares_first_generic _ _ Hdecl) as [Hb _]. destruct Hdecl as (p & q & -> & _ & Hp).
-    cbn [resolve]. rewrite Hld, Hb. cbn [negb]. rewrite (first_generic_args_app _ _ _ Hp), Hlen, Nat.eqb_refl, Hdist. reflexivity.
-  - apply forallb_forall. intros [a b] Hin. cbn [snd]. rewrite forallb_forall in Hcl. apply Hcl. eapply in_combine_r; eauto.
+  intros tv w c ts xs (pre & d & post & Hl & Hpre & Hmx & Hpost & Hng & Hd) Hcl.
+  pose proof Hd as (b & _ & _ & Hk).
+  exists pre, d, xs, post. repeat split; try assumption. now apply resolve_direct.
 Qed.
